@@ -59,22 +59,6 @@ Fixpoint first_rename_all (ms : list cmeta) : option str :=
   | CRenameAllP l :: r => match ser_of l with Some v => Some v | None => first_rename_all r end
   | _ :: r => first_rename_all r
   end.
-(* what the tool takes: the first quoted value after the key, whichever side it belongs to *)
-Definition head_val (l : list (bool * str)) : option str := match l with [] => None | p :: _ => Some (snd p) end.
-Fixpoint head_rename (ms : list meta) : option str :=
-  match ms with
-  | [] => None
-  | MRename v :: _ => Some v
-  | MRenameP l :: r => match head_val l with Some v => Some v | None => head_rename r end
-  | _ :: r => head_rename r
-  end.
-Fixpoint head_rename_all (ms : list cmeta) : option str :=
-  match ms with
-  | [] => None
-  | CRenameAll v :: _ => Some v
-  | CRenameAllP l :: r => match head_val l with Some v => Some v | None => head_rename_all r end
-  | _ :: r => head_rename_all r
-  end.
 Definition container_rule (c : container) : option rule :=
   match first_rename_all (concat (c_attrs c)) with Some v => rule_of_str v | None => None end.
 
@@ -176,34 +160,37 @@ Definition kf_skip_beside (c : container) : bool :=
    at the first quote of the source text and never unescapes *)
 Definition needs_escape (v : str) : bool := existsb (fun c => Ascii.eqb c """" || Ascii.eqb c "\") v.
 Definition kf_rename_escape (c : container) : bool :=
-  existsb (fun it => match head_rename (concat (it_attrs it)) with Some v => needs_escape v | None => false end) (c_items c).
+  existsb (fun it => match rename_of it with Some v => needs_escape v | None => false end) (c_items c).
 
-(* C06-5: the letters rename inside another attribute (name or value) of the same item: the
-   scanner takes that occurrence for the rename key *)
-Definition kf_rename_text (c : container) : bool :=
-  existsb (fun it => existsb (fun m => negb (is_rename m) && contains (L "rename") (meta_text m))
-                             (concat (it_attrs it))) (c_items c).
-
-(* C06-8: the parenthesised form whose FIRST entry is not the serialize name (deserialize written first
-   with a different value, or deserialize alone): the tool takes the first quoted value after the key,
-   serde serialises under the serialize entry (the Rust name / container rule when there is none) *)
-Definition opt_str_eqb (a b : option str) : bool :=
-  match a, b with Some x, Some y => str_eqb x y | None, None => true | _, _ => false end.
-Definition sd_bad (l : list (bool * str)) : bool := negb (opt_str_eqb (head_val l) (ser_of l)).
-Definition kf_sd_first (c : container) : bool :=
-  existsb (fun m => match m with CRenameAllP l => sd_bad l | _ => false end) (concat (c_attrs c)) ||
-  existsb (fun it => existsb (fun m => match m with MRenameP l => sd_bad l | _ => false end) (concat (it_attrs it))) (c_items c).
-
-(* C06-9: the letters rename_all inside another container attribute (rename_all_fields = .., or a
-   value): tokens.find takes that occurrence for the rename_all key *)
+(* C06-5 (narrowed by the repair C06-8-9-serde-attr-spellings): text shaped like a key inside a VALUE.
+   find_key accepts an occurrence of the key that is not preceded by an identifier character and is
+   followed by = or (, so names such as rename_all_fields, prerename or deserialize and values such
+   as <rename> no longer count; what remains is
+   - an item attribute other than rename whose text holds such an occurrence of rename
+     (default = <a rename = b>),
+   - a container attribute other than rename_all whose text holds such an occurrence of rename_all,
+   - in the parenthesised form: a value containing a closing parenthesis (the group is cut at the first
+     one) or a deserialize value holding such an occurrence of serialize. *)
+Definition key_occurs (key text : str) : bool := match find_key key text with Some _ => true | None => false end.
 Definition cmeta_text (m : cmeta) : str := tok_string (cmeta_tokens m).
-Definition kf_rename_all_text (c : container) : bool :=
-  existsb (fun m => negb (is_ra m) && contains (L "rename_all") (cmeta_text m)) (concat (c_attrs c)).
+Definition has_paren (v : str) : bool := existsb (fun c => Ascii.eqb c ")") v.
+Definition p_bad (l : list (bool * str)) : bool :=
+  existsb (fun p => has_paren (snd p) || negb (fst p) && key_occurs (L "serialize") (lit (snd p))) l.
+Definition kf_rename_text (c : container) : bool :=
+  existsb (fun it => existsb (fun m => match m with
+                                       | MRename _ => false
+                                       | MRenameP l => p_bad l
+                                       | _ => key_occurs (L "rename") (meta_text m) end)
+                             (concat (it_attrs it))) (c_items c) ||
+  existsb (fun m => negb (is_ra m) && key_occurs (L "rename_all") (cmeta_text m)) (concat (c_attrs c)).
 
-(* C06-6 (repaired by C06-6-variant-skip): an enum variant carrying skip used to be listed. *)
+(* C06-6 (repaired by C06-6-variant-skip): an enum variant carrying skip used to be listed.
+   C06-8 (repaired by C06-8-9-serde-attr-spellings): the parenthesised form used to yield its first value
+   even when that was the deserialize one; now the serialize entry is taken.
+   C06-9 (same repair): rename_all_fields used to be read as rename_all. *)
 
 Definition kf_C06 (c : container) : bool :=
-  kf_skip_text c || kf_skip_beside c || kf_rename_escape c || kf_rename_text c || kf_sd_first c || kf_rename_all_text c.
+  kf_skip_text c || kf_skip_beside c || kf_rename_escape c || kf_rename_text c.
 
 (* C06-7 (configuration): a struct without rename_all whose unrenamed, unskipped field is changed by
    the configured default_field_case (anything but snake_case / lowercase; an unknown setting counts as
